@@ -84,7 +84,7 @@ func init() {
 			}
 			for k := 0; k < reps; k++ {
 				for at := 1; at <= 9; at++ {
-					for _, kind := range []string{"erase", "replace", "add"} {
+					for _, kind := range []string{"erase", "replace", "add", "cancel", "cancel-lenient"} {
 						cs = append(cs, ev.MkCase("sdr", c17SDRHist{Seed: seed*29 + int64(k), At: at, Kind: kind}))
 					}
 				}
@@ -653,9 +653,16 @@ func c17SDR(run *ev.Run, o c17SDRHist) {
 	used.BeforeGet = func(nth int, rp *refbmc.Repo) {
 		if nth == o.At && !injected {
 			injected = true
+			if o.Kind == "cancel" || o.Kind == "cancel-lenient" {
+				// only the reservation is lost (another console reserved the repository); the contents stay
+				rp.CancelLocked()
+				return
+			}
 			rp.ModifyLocked(final, o.Kind == "erase", true)
 		}
 	}
+	// "cancel-lenient": a BMC that checks the reservation on partial reads only, as the specification allows
+	used.ReservationOnPartialOnly = o.Kind == "cancel-lenient"
 	a, ok1 := retrieve(used)
 	b, ok2 := retrieve(refbmc.NewRepo(final, 70001))
 	if !ok1 || !ok2 {
